@@ -280,6 +280,21 @@ const c18Rule = "rapid-drawn (input x options x Read size sequence x source beha
 	"independent strict frame parser as exactly one frame whose header shows the options and whose content is the input, followed by io.EOF; an injected source error is passed through " +
 	"(errors.Is). Non-trivial = at least one call filled its buffer completely (overflow pending) and >= 2 distinct buffer sizes were used; distinct by hash(input, options, sizes)."
 
+// TestC18Pinned: 4 MiB blocks that barely compress (more than 2 MiB carried over between calls), small and odd
+// buffers: the quick tier's random draw keeps to 64 KiB blocks for cost.
+func TestC18Pinned(t *testing.T) {
+	stat.For("C18").SetRule(c18Rule)
+	if shard != 0 {
+		return
+	}
+	for _, sizes := range [][]int{{4096}, {65536, 1}, {1 << 20, 7, 100000}, {3 << 20}} {
+		for _, segs := range [][]gen.Seg{{{K: "rand", N: 3 << 20, S: 5}}, {{K: "rand", N: 4<<20 + 100, S: 6}, {K: "text", N: 70000, S: 1, P: 4}}, {{K: "text", N: 9 << 20, S: 2, P: 16}}} {
+			c := c18Case{Opts: wopts{BS: 7, ContentSum: true, Conc: 1}, Data: gen.Data{Segs: segs}, Sizes: sizes}
+			pinned(t, "C18", "C18/read", c, runC18)
+		}
+	}
+}
+
 func TestC18(t *testing.T) {
 	rec := stat.For("C18")
 	rec.SetRule(c18Rule)
